@@ -26,11 +26,14 @@ import (
 )
 
 func wHarnesses() []*hysim.Harness {
-	return []*hysim.Harness{
-		{Name: "c01", Gen: genC01, Exec: execC01, LeakOK: true},
-		{Name: "c02", Gen: genC02, Exec: execC01, LeakOK: true},
-	}
+	return append([]*hysim.Harness{
+		{Name: "c01", Gen: genC01, Exec: execC01, LeakOK: true, Isolate: true},
+		{Name: "c02", Gen: genC02, Exec: execC01, LeakOK: true, Isolate: true},
+	}, wExtra...)
 }
+
+// wExtra: harnesses registered by the other files of this package (init functions).
+var wExtra []*hysim.Harness
 
 var (
 	c01Methods = []string{"POST", "GET", "PUT", "HEAD", "DELETE", "OPTIONS"}
@@ -249,6 +252,9 @@ func execC01(x *hysim.Run) {
 	}
 	w.stopServer()
 	time.Sleep(2 * time.Second)
+	if left := x.WaitTasks(700 * time.Second); len(left) > 0 {
+		x.Probe("tasks-left-at-end")
+	}
 	synctest.Wait()
 }
 
